@@ -568,7 +568,7 @@ func Generate(seed uint64, n int, tier string, corpusDir string, out *kit.Out) e
 		}
 	}
 	r := kit.NewRng(seed)
-	perSchema := 16
+	perSchema := 18
 	if tier == "thorough" {
 		perSchema = 1 << 30 // every applicable position of every edit kind
 	}
@@ -593,7 +593,7 @@ func Generate(seed uint64, n int, tier string, corpusDir string, out *kit.Out) e
 				edits = append(edits, m)
 			}
 		}
-		// sample: one of each kind first (rotating start), then random fill
+		// sample
 		chosen := edits
 		if len(edits) > perSchema {
 			byKind := map[string][]Edit{}
@@ -606,10 +606,13 @@ func Generate(seed uint64, n int, tier string, corpusDir string, out *kit.Out) e
 				byKind[k] = append(byKind[k], e)
 			}
 			chosen = nil
-			off := cr.Intn(len(kinds))
+			// a random subset of the (kind, part, transition) classes, one edit of each
+			for i := len(kinds) - 1; i > 0; i-- {
+				j := cr.Intn(i + 1)
+				kinds[i], kinds[j] = kinds[j], kinds[i]
+			}
 			for i := 0; i < len(kinds) && len(chosen) < perSchema; i++ {
-				k := kinds[(i+off)%len(kinds)]
-				chosen = append(chosen, kit.Pick(cr, byKind[k]))
+				chosen = append(chosen, kit.Pick(cr, byKind[kinds[i]]))
 			}
 		}
 		for _, e := range chosen {
